@@ -419,7 +419,7 @@ pub(crate) mod kani_verif {
     fn c10_aux_front_n16() {
         check_aux_front::<100>();
     }
-    // @h name=c10_aux_front_24 props=C10,C11! tier=quick kind=proved cfg=w8 timeout=900 funcs=HssPrivateKey::get_expanded_aux_data;hss_is_aux_data_used;hss_get_aux_data_len;hss_store_aux_marker contract="same contract for every buffer of length 0..24 (too small for any level: fresh buffers shrink to the marker byte and are ignored; in-use ones go through the MAC check)"
+    // @h name=c10_aux_front_24 props=C10,C11 tier=thorough kind=proved cfg=w8 timeout=2400 funcs=HssPrivateKey::get_expanded_aux_data;hss_is_aux_data_used;hss_get_aux_data_len;hss_store_aux_marker contract="same contract for every buffer of length 0..24 (too small for any level: fresh buffers shrink to the marker byte and are ignored; in-use ones go through the MAC check)"
     #[kani::proof]
     #[kani::stub(zeroize::optimization_barrier, no_barrier)]
     #[kani::stub(<[u8; 32] as tinyvec::Array>::default, fast_default)]
@@ -429,13 +429,106 @@ pub(crate) mod kani_verif {
     fn c10_aux_front_24() {
         check_aux_front::<24>();
     }
-    // @h name=c10_aux_front_fresh_h2 props=C10,C11,C09! tier=quick kind=bounded cfg=w8 timeout=900 funcs=HssPrivateKey::get_expanded_aux_data;hss_expand_aux_data;hss_store_aux_marker note="one concrete buffer length (100) and top tree (4 leaves, n = 16); all lengths 0..100 and all top trees: c10_aux_front_n16 (thorough)" contract="a fresh 100-byte buffer with arbitrary stale contents: shrunk to 84, level 2 cached, every cached byte zero before use, marker = level word"
+    // @h name=c10_aux_front_fresh_h2 props=C10,C11,C09 tier=thorough kind=bounded cfg=w8 timeout=2400 funcs=HssPrivateKey::get_expanded_aux_data;hss_expand_aux_data;hss_store_aux_marker note="one concrete buffer length (100) and top tree (4 leaves, n = 16); all lengths 0..100 and all top trees: c10_aux_front_n16 (thorough)" contract="a fresh 100-byte buffer with arbitrary stale contents: shrunk to 84, level 2 cached, every cached byte zero before use, marker = level word"
     #[kani::proof]
     #[kani::stub(zeroize::optimization_barrier, no_barrier)]
     #[kani::stub(<[u8; 32] as tinyvec::Array>::default, fast_default)]
     #[kani::unwind(110)]
     fn c10_aux_front_fresh_h2() {
         check_aux_front_fresh_h2();
+    }
+
+
+    // ---- the same front end with hss_expand_aux_data replaced by a contract stub (its body: c10_expand_untrusted_*). The real
+    // expander is iterator-heavy and makes the harnesses above take > 15 minutes; what get_expanded_aux_data itself does -
+    // shrink, zero, mark, hand over - is checked here on the buffer that reaches the expander.
+    use core::sync::atomic::{AtomicU8 as A8, AtomicUsize as AU, Ordering as Ord2};
+    static EX_CALLS: AU = AU::new(0);
+    static EX_LEN: AU = AU::new(0);
+    static EX_SEED: AU = AU::new(0); // 0 = None, 1 = Some(equal to the key's seed), 2 = Some(other)
+    static EX_BUF: [A8; 100] = [const { A8::new(0) }; 100];
+    static EX_WANT_SEED: [A8; 16] = [const { A8::new(0) }; 16];
+    pub fn stub_expand<'a, H: HashChain>(aux_data: Option<&'a mut [u8]>, seed: Option<&'a [u8]>) -> Option<MutableExpandedAuxData<'a>> {
+        EX_CALLS.fetch_add(1, Ord2::Relaxed);
+        let b = aux_data.unwrap();
+        EX_LEN.store(b.len(), Ord2::Relaxed);
+        let mut i = 0;
+        while i < b.len() && i < 100 {
+            EX_BUF[i].store(b[i], Ord2::Relaxed);
+            i += 1;
+        }
+        let st = match seed {
+            None => 0,
+            Some(sd) => {
+                let mut same = sd.len() == 16;
+                let mut j = 0;
+                while j < 16 && j < sd.len() {
+                    same = same && sd[j] == EX_WANT_SEED[j].load(Ord2::Relaxed);
+                    j += 1;
+                }
+                if same { 1 } else { 2 }
+            }
+        };
+        EX_SEED.store(st, Ord2::Relaxed);
+        None
+    }
+    fn check_aux_front_stubbed() {
+        EX_CALLS.store(0, Ord2::Relaxed);
+        let mut store: [u8; 100] = kani::any();
+        let copy = store;
+        let len: usize = kani::any();
+        kani::assume(len <= 100);
+        let first_zero = len == 0 || store[0] == 0;
+        let mut rk = ReferenceImplPrivateKey::<HF>::default();
+        let sb: [u8; 16] = kani::any();
+        rk.seed.as_mut_slice().copy_from_slice(&sb);
+        let mut i = 0;
+        while i < 16 {
+            EX_WANT_SEED[i].store(sb[i], Ord2::Relaxed);
+            i += 1;
+        }
+        let top = LmsAlgorithm::from(any_lms_code(true) as u32).construct_parameter::<HF>().unwrap();
+        let mut slice: &mut [u8] = &mut store[..len];
+        let used = hss_is_aux_data_used(slice);
+        assert!(used == !first_zero, "in use iff non-empty and first byte non-zero");
+        let want_len = if len == 0 { 0 } else { hss_get_aux_data_len(len, top) };
+        let want_level = hss_optimal_aux_level(want_len, top, None);
+        let r = HssPrivateKey::<HF>::get_expanded_aux_data(Some(&mut slice), &rk, &top, used);
+        assert!(r.is_none(), "(stubbed expander returns None)");
+        let calls = EX_CALLS.load(Ord2::Relaxed);
+        if len == 0 {
+            assert!(calls == 0, "empty buffer: no aux data, nothing handed on, no panic");
+        } else if used {
+            assert!(calls == 1 && EX_SEED.load(Ord2::Relaxed) == 1 && EX_LEN.load(Ord2::Relaxed) == len, "an in-use buffer goes to the expander whole, together with the key's seed (MAC check)");
+            let k: usize = kani::any();
+            kani::assume(k < len);
+            assert!(EX_BUF[k].load(Ord2::Relaxed) == copy[k], "... and unmodified");
+        } else {
+            assert!(calls == 1 && EX_SEED.load(Ord2::Relaxed) == 0, "a fresh buffer is handed on without MAC check");
+            assert!(EX_LEN.load(Ord2::Relaxed) == want_len && slice.len() == want_len, "shrunk to the hash-sigs length (the caller's slice too)");
+            if want_level == 0 {
+                assert!(want_len == 1 && EX_BUF[0].load(Ord2::Relaxed) == 0, "too small for any level: one marker byte 'not in use'");
+            } else {
+                let w = want_level.to_be_bytes();
+                assert!(EX_BUF[0].load(Ord2::Relaxed) == w[0] && EX_BUF[1].load(Ord2::Relaxed) == w[1]
+                    && EX_BUF[2].load(Ord2::Relaxed) == w[2] && EX_BUF[3].load(Ord2::Relaxed) == w[3], "marker = level word");
+                let k: usize = kani::any();
+                kani::assume(k >= 4 && k < want_len);
+                assert!(EX_BUF[k].load(Ord2::Relaxed) == 0, "every byte behind the level word is zero before the buffer is used as cache (stale contents never read back)");
+            }
+        }
+        kani::cover!(len > 40 && !used && want_level != 0, "fresh buffer with a cached level reachable");
+        kani::cover!(len > 0 && !used && want_level == 0, "fresh buffer too small for any level reachable");
+        kani::cover!(used, "in-use buffer reachable");
+    }
+    // @h name=c10_aux_front_stubbed props=C10,C11!,C09! tier=quick kind=proved cfg=w8 timeout=1200 funcs=HssPrivateKey::get_expanded_aux_data;hss_is_aux_data_used;hss_get_aux_data_len;hss_store_aux_marker contract="every buffer of length 0..100, every content, every top tree: no panic; in-use buffers reach the expander whole and unmodified together with the seed; fresh buffers are shrunk to the hash-sigs length, marked with the level word and every byte behind it is zero when they reach the expander (expander by contract stub)"
+    #[kani::proof]
+    #[kani::stub(zeroize::optimization_barrier, no_barrier)]
+    #[kani::stub(<[u8; 32] as tinyvec::Array>::default, fast_default)]
+    #[kani::stub(crate::hss::aux::hss_expand_aux_data, stub_expand)]
+    #[kani::unwind(110)]
+    fn c10_aux_front_stubbed() {
+        check_aux_front_stubbed();
     }
 
     // ================================================================== C11: key generation front end
